@@ -3,6 +3,7 @@
    drop_slow in every order); "valid UTF-8" is Ref/Utf8.v's encode on Unicode scalar values. *)
 From Coq Require Import List NArith Bool.
 From AM Require Import Rust.Ast Gen.Bytes Ref.Bytes Ref.Utf8 Proofs.Bytes Proofs.Utf8 Tie.Bytes.
+From AM Require Gen.Loaders Tie.Loaders.
 Import ListNotations.
 Open Scope N_scope.
 
@@ -100,3 +101,9 @@ Example C16_nonvacuous :
   freed (fst r) = [(3, (32, 8)); (2, (8, 1)); (1, (32, 8)); (0, (35, 8))] /\
   valid [240; 159; 146; 150; 195; 169] = true /\ valid [237; 160; 128] = false /\ valid [192; 128] = false.
 Proof. vm_compute. repeat split. Qed.
+
+(* the loader that builds a SharedString asset from file contents validates: both arms go through
+   from_utf8 and propagate its error (`?`), nothing lossy, and hand the validated text to `into` *)
+Theorem C16_code_string_loader_validates :
+  AM.Tie.Loaders.shared_str_wf AM.Gen.Loaders.StringLoader_load_shared = true.
+Proof. exact (proj2 (proj2 (proj2 (proj2 (proj2 (proj2 (proj2 AM.Tie.Loaders.loaders_as_modelled))))))). Qed.
